@@ -448,6 +448,7 @@ PROPS = {
         "parts": [
             {"pkg": "internal/corerad", "run": "TestVerif_C04", "shards": {"quick": 8, "thorough": 16},
              "files": ["corerad/zz_verif_C12_test.go", "corerad/zz_verif_sim_test.go", "corerad/zz_verif_adv_test.go", "corerad/zz_verif_mon_test.go", "corerad/zz_verif_C06_test.go", "corerad/zz_verif_C04_test.go"]},
+            {"pkg": "internal/system", "run": "TestVerif_C04sysctl", "files": ["system/zz_verif_C04sysctl_test.go"], "shards": {"quick": 1, "thorough": 2}},
             e2e_part("TestVerif_C04main"),
         ],
         "level": "exploration",
@@ -726,3 +727,7 @@ PROPS["C10"]["rule"] += " Wiring part: for every mode vector of up to 5 interfac
 PROPS["C17"]["rule"] += " /debug/pprof/cmdline and /debug/pprof/symbol must be gated exactly as the index is."
 
 PROPS["C20"]["rule"] += " Every task is run exactly once."
+
+PROPS["C04"]["rule"] += " Sysctl part (300 / 20 000 cases): the real NewState().IPv6Forwarding over a real file that is rewritten in place between reads, half of the time with its timestamps unchanged (as when the kernel flips the value through conf/all): every read reports what the file holds."
+
+PROPS["C20"]["rule"] += " Whole-process part: the shutdown announcement must name the signal that was sent."
